@@ -241,7 +241,9 @@ fn same_name_across_modules(rep: &mut Report) {
     let mut expect = vec![];
     for depth in [1usize, 2] {
         for local_first in [false, true] {
-            let mut g = String::from("pub type Node {\n    pub x: u64,\n}\nimpl Node {\n    #[address(0x10000)]\n    pub fn id(&self);\n}\n");
+            // (g::Node carries a vftable: with Drawable as first base the derived type in module m inherits a table
+            // whose struct lives in module g)
+            let mut g = String::from("pub type Node {\n    vftable {\n        pub fn vf(&self);\n    },\n    pub x: u64,\n}\nimpl Node {\n    #[address(0x10000)]\n    pub fn id(&self);\n}\n");
             let mut top = "Node";
             if depth == 2 {
                 g.push_str("pub type Mid {\n    pub pad: u64,\n    #[base]\n    pub node: Node,\n}\n");
@@ -252,7 +254,7 @@ fn same_name_across_modules(rep: &mut Report) {
             let m = format!("use g::Drawable;\npub type Node {{\n    pub z: u64,\n}}\nimpl Node {{\n    #[address(0x20000)]\n    pub fn tag(&self);\n}}\npub type Sprite {{\n    #[base]\n    {b0},\n    #[base]\n    {b1},\n    pub w: u64,\n}}\n");
             let input = pipe::Input { modules: vec![("g".into(), g), ("m".into(), m)] };
             // offsets inside Sprite: Drawable = [pad] Node(8) y(8)
-            let dsize = if depth == 2 { 24u64 } else { 16 };
+            let dsize = if depth == 2 { 32u64 } else { 24 };
             let d_off = if local_first { 8 } else { 0 };
             let n_off = if local_first { 0 } else { dsize };
             let gnode_off = d_off + if depth == 2 { 8 } else { 0 };
@@ -268,6 +270,10 @@ fn same_name_across_modules(rep: &mut Report) {
                     for (label, ty) in [("g_node", "crate::g::Node"), ("m_node", "crate::m::Node"), ("drawable", "crate::g::Drawable")] {
                         d.push_str(&format!("        crate::rt::begin(\"ref_{label}\");\n        let r: &{ty} = o.as_ref();\n        crate::rt::end(r as *const {ty} as u64 - base, &[]);\n"));
                         d.push_str(&format!("        crate::rt::begin(\"mut_{label}\");\n        let r: &mut {ty} = o.as_mut();\n        crate::rt::end(r as *mut {ty} as u64 - base, &[]);\n"));
+                    }
+                    if !local_first {
+                        // the inherited table's accessor names a struct of the other module
+                        d.push_str("        crate::rt::begin(\"vftable\");\n        let p: *const crate::g::NodeVftable = o.vftable();\n        crate::rt::end(p as u64, &[]);\n");
                     }
                     for f in ["id", "tag"] {
                         d.push_str(&format!("        crate::rt::begin(\"{f}\");\n        o.{f}();\n        crate::rt::end(0, &[base]);\n"));
@@ -288,7 +294,7 @@ fn same_name_across_modules(rep: &mut Report) {
             for (k, r) in results.iter().enumerate() {
                 let (gnode, mnode, drawable) = expect[k];
                 let viol = if !r.compile.is_empty() {
-                    Some((format!("conversion_or_member_missing:{}", r.compile[0].code), r.compile.iter().take(3).map(|d| d.rendered.clone()).collect::<Vec<_>>().join("\n")))
+                    Some((format!("conversion_or_member_missing_or_not_compilable:{}", r.compile[0].code), r.compile.iter().take(3).map(|d| d.rendered.clone()).collect::<Vec<_>>().join("\n")))
                 } else if let Some(cr) = &r.crashed {
                     Some(("method_crashed".to_string(), cr.clone()))
                 } else {
